@@ -54,7 +54,7 @@ DEPS = [
 ]
 
 COMP_NAMES = ["Foo", "Bar", "Foo.Bar", "ui.Button", "A", "X1", "ns.sub.Widget"]
-TAG_NAMES = ["div", "span", "p", "b", "ul", "input", "br", "img", "hr"]
+TAG_NAMES = ["div", "span", "p", "b", "ul", "input", "br", "img", "hr", "script", "style", "textarea", "title", "option"]
 PROP_NAMES = ["id", "class_", "x", "x_", "x__", "data_a", "onClick", "value", "for_", "aB_c", "title"]
 
 
@@ -117,7 +117,11 @@ def nodes():
         )
 
     def tfy(ch):
-        return st.builds(lambda r: {"k": "tfy", "res": r, "raw": True}, st.one_of(ch.filter(lambda n: n["k"] in ("tag", "str", "dep")), st.sampled_from([DEPS[0], DEPS[1], {"k": "str", "s": "expanded"}])))
+        return st.builds(
+            lambda r, fl: {"k": "tfy", "res": r, "raw": True, "flaky": fl},
+            st.one_of(ch.filter(lambda n: n["k"] in ("tag", "str", "dep")), st.sampled_from([DEPS[0], DEPS[1], {"k": "str", "s": "expanded"}])),
+            st.sampled_from([False, False, False, True]),  # a component whose tagify() raises the first time it is asked
+        )
 
     leaf_comp = st.just({"k": "jsx", "name": "Leaf", "props": [], "kids": [], "hows": ["ctor"] * 4})
     tfy_tag = tfy(tag(leaf, None))
@@ -168,6 +172,22 @@ class RawTfy(Tfy):
         return build_node(self.res)
 
 
+class FlakyRawTfy(RawTfy):
+    """fails the first time the component described by this recipe node is asked (state per recipe node)"""
+
+    def __init__(self, res, raw, key):
+        super().__init__(res, raw)
+        self.key = key
+
+    def tagify(self):
+        from hv import build as B
+
+        if self.key not in B.FLAKY_SEEN:
+            B.FLAKY_SEEN.add(self.key)
+            raise B.FlakyError("not ready yet")
+        return super().tagify()
+
+
 def build_node(r):
     import htmltools as h
 
@@ -181,6 +201,8 @@ def build_node(r):
     if k in ("dep", "meta"):
         return build(r)
     if k == "tfy":
+        if r.get("flaky"):
+            return FlakyRawTfy(r["res"], True, id(r))
         return RawTfy(r["res"], True)
     if k == "tag":
         kw = {a: v for a, v in r["attrs"]}
@@ -310,6 +332,15 @@ def normalise(v):
     return v
 
 
+def _has_raw_tag(r):
+    if r["k"] == "tag" and r["name"] in ("script", "style") and any(c["k"] == "str" for c in r["kids"]):
+        return True
+    kids = list(r.get("kids", [])) if r["k"] in ("tag", "jsx") else ([r["res"]] if r["k"] == "tfy" else [])
+    if r["k"] == "jsx":
+        kids += [v["v"] for _, v in r["props"] if isinstance(v, dict) and v.get("t") == "node"]
+    return any(_has_raw_tag(c) for c in kids)
+
+
 def extract_expression(script_html: str) -> str:
     a = script_html.index("ReactDOM.render(") + len("ReactDOM.render(")
     b = script_html.rindex("\n  , container);")
@@ -319,9 +350,22 @@ def extract_expression(script_html: str) -> str:
 def body_component(case, note):
     import htmltools as h
 
+    from hv import build as B
+
     r = case["comp"]
+    B.FLAKY_SEEN.clear()
     comp = build_node(r)
     base = S.snap(comp)
+    # history: conversions of this very component that raised in user code (each flaky descendant fails once)
+    failed = 0
+    while True:
+        try:
+            comp.tagify() if failed % 2 == 0 else str(comp)
+            break
+        except B.FlakyError:
+            failed += 1
+            check(failed < 100, "harness: flaky components keep failing")
+            check(S.snap(comp) == base, "a conversion that failed in user code changed the component", _diff(base, S.snap(comp)))
     results = []
     for i in range(case["repeat"]):
         t = comp.tagify()
@@ -379,6 +423,8 @@ def body_component(case, note):
     note(
         bool(r["props"]) and any(c["k"] in ("tag", "jsx") for c in r["kids"]) and (has_tfy or deep_meta),
         "tfy" if has_tfy else "",
+        "earlier-conversion-raised" if failed else "",
+        "raw-text-element-with-text" if _has_raw_tag(r) else "",
         "metadata-below-top" if deep_meta else "",
         "node-valued-prop" if any(v["t"] == "node" for _, v in effective_props(r)) else "",
         "style-prop" if any(norm(p) == "style" for p, _ in r["props"]) else "",
@@ -462,7 +508,7 @@ CLAUSES = [
         quick=500,
         thorough=8000,
         shards_quick=4,
-        required=("tfy", "metadata-below-top", "node-valued-prop", "style-prop", "added-later", "added-from-one-shot-iterable", "edited-then-converted-again"),
+        required=("tfy", "metadata-below-top", "node-valued-prop", "style-prop", "added-later", "added-from-one-shot-iterable", "edited-then-converted-again", "earlier-conversion-raised", "raw-text-element-with-text"),
         rule="see RULE",
     ),
     Clause("allowlist", body_allow, strategy=allow_case, quick=400, thorough=3000, shards_quick=1, shards_thorough=2, required=("rejected", "accepted"), rule="some but not all props outside the list"),
